@@ -1,6 +1,6 @@
 (* C06 property theorems.  Only statements closed by [exact]; each followed by Print Assumptions.
    All are stated over the scanner/inferrer instantiated with the digit tables REGENERATED from /repo. *)
-From Miller Require Import Base.Bytes C06.Model C06.Proofs C06.TableProofs gen.Gen_ScanTables.
+From Miller Require Import Base.Bytes C06.Model C06.Proofs C06.Grammar C06.GrammarProofs C06.GrammarInfer C06.GrammarAccept C06.Tables C06.TableProofs gen.Gen_ScanTables gen.Gen_ScanTypes.
 Open Scope char_scope.
 
 (* (B) regenerated tables = documented digit classes, all 256 bytes *)
@@ -71,6 +71,89 @@ Theorem C06_int_overflow_becomes_float_instance :
   ginfer FDefault (B "9223372036854775808") = VFloat 4890909195324358656.
 Proof. exact (eq_trans (ginfer_spec FDefault _) (proj1 (proj2 (proj2 int_overflow_is_float_witness)))). Qed.
 Print Assumptions C06_int_overflow_becomes_float_instance.
+
+(* ---------- the float grammar and the full documented inference (round 2) ---------- *)
+(* the float grammar as an inductive definition (sign? (D+ | D+ '.' D* | D* '.' D+) ([eE] sign? D+)?) and as a boolean recogniser agree, all byte strings *)
+Theorem C06_float_grammar_inductive_iff_boolean : forall s : bytes, FloatLit s <-> float_syntax s = true.
+Proof. exact floatlit_iff. Qed.
+Print Assumptions C06_float_grammar_inductive_iff_boolean.
+
+(* strconv.ParseFloat's syntax, as modelled (mantissa loop with its flags, exponent loop), accepts exactly the float grammar;
+   Inf/NaN/infinity/hex floats/underscores never reach it: C06_non_numeric_is_string *)
+Theorem C06_float_syntax_acceptance : forall s : bytes, (parse_float s <> None) <-> FloatLit s.
+Proof. exact (fun s => iff_trans (parse_float_syntax s) (iff_sym (floatlit_iff s))). Qed.
+Print Assumptions C06_float_syntax_acceptance.
+
+(* ... and computes the value the literal denotes: (int digits ++ fraction digits) * 10^(exp - |fraction|), correctly rounded *)
+Theorem C06_float_value : forall s : bytes, parse_float s = spec_parse_float s.
+Proof. exact parse_float_spec. Qed.
+Print Assumptions C06_float_value.
+
+(* THE classification theorem: for ALL byte strings and every flag, the inferrer built from the regenerated tables gives the kind
+   AND the value of the documented grammar (doc_infer: decimal / 0x incl. the two's-complement range and signs / 0o / 0b /
+   leading zeros vs -O / floats / overflow to float / everything else string; -S; -A) *)
+Theorem C06_inference_is_documented_grammar : forall (f : iflag) (s : bytes), ginfer f s = doc_infer f s.
+Proof. exact (fun f s => eq_trans (ginfer_spec f s) (infer_is_documented f s)). Qed.
+Print Assumptions C06_inference_is_documented_grammar.
+
+(* whatever is inferred as a float is a float literal of the grammar *)
+Theorem C06_inferred_float_is_float_literal : forall (s : bytes) (b : Z), ginfer FDefault s = VFloat b -> FloatLit s.
+Proof. exact (fun s b H => float_kind_sound s b (eq_trans (eq_sym (C06_inference_is_documented_grammar FDefault s)) H)). Qed.
+Print Assumptions C06_inferred_float_is_float_literal.
+
+(* scanner-accepts-as-float <=> grammar, ALL byte strings: the scanner (regenerated tables) classifies s as a float candidate and
+   strconv accepts it exactly when s is a float literal of the grammar that has a decimal point or an exponent *)
+Theorem C06_scanner_float_path_iff_grammar :
+  forall s : bytes, (gscan s = SMaybeFloat /\ parse_float s <> None) <-> (FloatLit s /\ has_point_or_exp s = true).
+Proof. exact g_float_path_iff_grammar. Qed.
+Print Assumptions C06_scanner_float_path_iff_grammar.
+
+(* ... and then the inferred value is the literal's value correctly rounded (a string only beyond the double range) *)
+Theorem C06_float_literal_is_inferred_float :
+  forall s : bytes, FloatLit s -> has_point_or_exp s = true ->
+  exists p, float_parts (snd (split_sign s)) = Some p
+  /\ ginfer FDefault s = match float_value (is_neg (fst (split_sign s))) p with Some b => VFloat b | None => VString end.
+Proof. exact g_float_literal_inferred. Qed.
+Print Assumptions C06_float_literal_is_inferred_float.
+
+(* the regenerated scan-type enum, inferrer dispatch tables and flag -> inferrer selection are those of the model *)
+Theorem C06_dispatch_tables_match :
+  gen_type_names = map (fun t => (N.to_nat (scantype_code t), scantype_name t)) all_scantypes
+  /\ gen_normal_table = map (fun t => inferrer_name (dispatch false t)) all_scantypes
+  /\ gen_octal_table = map (fun t => inferrer_name (dispatch true t)) all_scantypes
+  /\ gen_selectors = map (fun f => (flag_name f, selector_name f)) [FDefault; FS; FA; FO]
+  /\ map snd gen_examples = map (fun t => N.to_nat (scantype_code t)) all_scantypes
+  /\ forall oai s, infer_normal gen_is_dec gen_is_oct gen_is_hex gen_is_flt oai s = run_inferrer (dispatch oai (gscan s)) s.
+Proof. exact (conj gen_type_names_spec (conj gen_normal_table_spec (conj gen_octal_table_spec (conj gen_selectors_spec
+              (conj (proj2 gen_examples_spec) (infer_normal_dispatch gen_is_dec gen_is_oct gen_is_hex gen_is_flt)))))). Qed.
+Print Assumptions C06_dispatch_tables_match.
+
+(* the documented examples, evaluated on the specification AND (by the theorem above) true of the inferrer *)
+Open Scope string_scope.
+Example C06_documented_examples :
+  let k f s := kind_of (doc_infer f (B s)) in
+  let v f s := doc_infer f (B s) in
+  (k FDefault "08.5" = KFloat /\ k FDefault "1e5" = KFloat /\ k FDefault ".5" = KFloat /\ k FDefault "5." = KFloat /\ k FDefault "1E-5" = KFloat
+   /\ k FDefault "-.5e+3" = KFloat /\ k FDefault "007.5" = KFloat /\ k FDefault "1e400" = KString /\ v FDefault "1e-400" = VFloat 0)
+  /\ (v FDefault "-0x1F" = VInt (-31) /\ v FDefault "0xff" = VInt 255 /\ v FDefault "-0xff" = VInt (-255) /\ v FDefault "+0xff" = VInt 255
+      /\ v FDefault "0xFFFFFFFFFFFFFFFF" = VInt (-1) /\ v FDefault "0x8000000000000000" = VInt (-9223372036854775808)
+      /\ v FDefault "-0x8000000000000000" = VInt (-9223372036854775808) /\ v FDefault "-0xffffffffffffffff" = VInt 1
+      /\ v FDefault "0x7fffffffffffffff" = VInt 9223372036854775807 /\ v FDefault "0x08000000000000000" = VString
+      /\ v FDefault "0o17" = VInt 15 /\ v FDefault "0b101" = VInt 5 /\ v FDefault "-0b101" = VInt (-5))
+  /\ (v FDefault "017" = VString /\ v FDefault "08" = VString /\ v FO "017" = VInt 15 /\ v FO "08" = VInt 8 /\ v FO "-0377" = VInt (-255)
+      /\ k FA "0xff" = KFloat /\ k FA "12" = KFloat /\ v FS "12" = VString /\ v FS "" = VEmpty)
+  /\ (v FDefault "1_000" = VString /\ v FDefault "1e" = VString /\ v FDefault "e5" = VString /\ v FDefault "0x" = VString
+      /\ v FDefault "1.2.3" = VString /\ v FDefault "--1" = VString /\ v FDefault "+-1" = VString /\ v FDefault " 1" = VString
+      /\ v FDefault "1 " = VString /\ v FDefault "." = VString /\ v FDefault "-." = VString /\ v FDefault "Inf" = VString
+      /\ v FDefault "NaN" = VString /\ v FDefault "+Inf" = VString /\ v FDefault "-inf" = VString /\ v FDefault "infinity" = VString
+      /\ v FDefault "0x1.8p1" = VString /\ v FDefault "1e5e" = VString /\ v FDefault "0b102" = VString /\ v FDefault "0o18" = VString)
+  /\ FloatLit (B "-12.5e-3") /\ ~ FloatLit (B "1e").
+Proof.
+  cbv zeta. split; [vm_compute; repeat split; reflexivity|]. split; [vm_compute; repeat split; reflexivity|].
+  split; [vm_compute; repeat split; reflexivity|]. split; [vm_compute; repeat split; reflexivity|].
+  split; [apply floatlit_iff; reflexivity|]. intros H. apply floatlit_iff in H. discriminate H.
+Qed.
+Close Scope string_scope.
 
 (* non-vacuity: concrete inputs meeting the hypotheses *)
 Example C06_nonvacuous :
